@@ -15,7 +15,7 @@ SPEC = {
                           "C13_fan_area_sum", "C13_fan_star_sees_every_side", "C13_fan_apex_sees_all",
                           "C13_earclip_preserves_WF", "C13_fan_preserves_WF", "C13_fan_convex_preserves_WF",
                           "C13_fan_preserves_WF_closed_face", "C13_fan_structure", "C13_fan_convex_structure",
-                          "C13_fan_cell_structure"],
+                          "C13_fan_cell_structure", "C13_earclip_frame"],
     "trusted_base": [
         "Lean 4.33 kernel; axioms propext, Classical.choice, Quot.sound only",
         "hand-written model Honeycomb/Model/Kernels/{Geom2,Fan,EarClip}.lean (+ Stm, Map, Ops, Ops2) tied to /repo by the "
@@ -46,7 +46,8 @@ SPEC = {
         "exact face structure after EAR CLIPPING (every cut ear is a triangle of the intended darts; needs the invariant that the "
         "kernel's dart vector is the current face in cyclic order through remove/push/swap_remove): oracle only. Proved instead: WF "
         "preservation for ear clipping and both fans (Props/C13b.lean), and for the fans the exact face structure (n-2 triangles as "
-        "closed beta1 3-cycles, beta2 of the sides unchanged, other faces untouched: FanResult)",
+        "closed beta1 3-cycles, beta2 of the sides unchanged, other faces untouched: FanResult); for ear clipping the frame "
+        "(C13_earclip_frame: other faces untouched, beta2 of the sides unchanged, spare darts 2-linked pair by pair)",
         "that the triangles of the map surgery carry the coordinates of the vertex-list triangles (fanTriangles / earclipTriangles): "
         "oracle only",
         "the last remaining triangle of ear clipping has the announced orientation (the code does not test it; follows from simplicity)",
